@@ -680,7 +680,7 @@ func TestPgWirePrograms(t *testing.T) {
 			rt.Fatalf("pg fixture: %v", err)
 		}
 		h := &pgHarness{rt: rt, c: c, p: p, committed: newWorld(), ghosts: map[string]bool{}, flags: map[string]bool{}}
-		h.g = &gen{rt: rt, c: c, prefix: fmt.Sprintf("p%d", pgSeq), noUnique: true, noNUL: true,
+		h.g = &gen{rt: rt, c: c, prefix: fmt.Sprintf("p%d", pgSeq), noUnique: true, noNUL: true, noChecks: true,
 			// the pgsql front-end turns CREATE TABLE into CREATE TABLE IF NOT EXISTS
 			skipFail: map[string]bool{"fail-table-exists": true},
 			types:    []sqlgen.Type{sqlgen.TInt, sqlgen.TInt, sqlgen.TVarchar, sqlgen.TVarchar, sqlgen.TBool}}
